@@ -32,6 +32,16 @@ Setup == /\ l <= Len(Trace) /\ Ev.ev = "setup" /\ Ev.n <= InitSize /\ Ev.more <=
          /\ grown' = [n |-> 0, wrapped |-> 0]
          /\ l' = l + 1 /\ UNCHANGED <<last, steps, hist, pend>>
 
+\* tens of thousands of requests in flight (packet identifiers run up to 65535): n registered one after the other on a
+\* fresh queue, nothing acknowledged yet; the ring has doubled from InitSize until it holds them
+RECURSIVE SizeFor(_, _)
+SizeFor(n, s) == IF n <= s THEN s ELSE SizeFor(n, 2 * s)
+BigSetup == /\ l <= Len(Trace) /\ Ev.ev = "bigsetup" /\ pend = <<>>
+            /\ q' = [i \in 1..Ev.n |-> Entry(i)]
+            /\ ping' = NoPing /\ size' = SizeFor(Ev.n, InitSize) /\ head' = 0 /\ tail' = Ev.n % SizeFor(Ev.n, InitSize)
+            /\ grown' = [n |-> 0, wrapped |-> 0]
+            /\ l' = l + 1 /\ UNCHANGED <<last, steps, hist, pend>>
+
 Call == /\ l <= Len(Trace) /\ Ev.ev = "call"
         /\ pend' = pend @@ (Ev.id :> [op |-> Ev.op, pid |-> Ev.pid, ty |-> Ev.ty, lin |-> FALSE, out |-> <<>>])
         /\ l' = l + 1 /\ UNCHANGED vars
@@ -62,7 +72,7 @@ Reset == /\ l <= Len(Trace) /\ Ev.ev = "reset"
          /\ pend = <<>> /\ q = <<>>
          /\ l' = l + 1 /\ UNCHANGED <<vars, pend>>
 
-TNext == Setup \/ Call \/ Ret \/ AckAll \/ Reset \/ \E id \in DOMAIN pend : Lin(id)
+TNext == Setup \/ BigSetup \/ Call \/ Ret \/ AckAll \/ Reset \/ \E id \in DOMAIN pend : Lin(id)
 TraceSpec == TInit /\ [][TNext]_tvars
 
 HighWater == TLCSet(1, IF TLCGet(1) > l THEN TLCGet(1) ELSE l)
